@@ -21,6 +21,7 @@ type C19Case struct {
 	AnyOf  []string  // at least one of these (lower-case) must occur in the lower-cased message
 	Gap    int       // number of other documents between the two conflicting ones
 	Single bool      // the conflicting ANP is the only ANP
+	NoWl   bool      `json:",omitempty"` // the input holds no workload
 }
 
 func simpleANP(name string, prio int) AdminPol {
@@ -36,6 +37,11 @@ func genC19(t *rapid.T) *C19Case {
 	c := &C19Case{Kind: rapid.SampledFrom([]string{"dupprio", "dupprio", "range", "dupanpname", "dupnp", "twobanp", "banpname", "ownerlabels", "ownermissing", "ownerempty", "ownerempty2"}).Draw(t, "conflict")}
 	if c.Kind == "twobanp" || c.Kind == "banpname" {
 		w.BANP = nil
+	}
+	if !strings.HasPrefix(c.Kind, "owner") && rapid.IntRange(0, 5).Draw(t, "nowl") == 0 {
+		// a policies-only input (no workload at all): there is nothing to list, the conflict is there all the same
+		w.Workloads = nil
+		c.NoWl = true
 	}
 	// scale up the number of ANPs (sort.Slice switches algorithm above 12 elements)
 	used := map[int]bool{}
@@ -281,6 +287,9 @@ func checkC19(c *C19Case, st *VStats) *VFailure {
 		}
 	}
 	st.Class("conflict " + c.Kind)
+	if c.NoWl {
+		st.Class("conflict in an input without workloads")
+	}
 	st.Points(4)
 	if c.NANP >= 13 {
 		st.Class(">=13 ANPs")
